@@ -64,3 +64,17 @@ Example C04_witness :
   failures f sc = [FPanic 0] /\ result_values f sc = None /\
   In (false, 1, [TmParam 0]) (calls f sc).
 Proof. vm_compute. repeat split. right. left. reflexivity. Qed.
+
+(* why the edge from a task's job to the job of its own predicate matters (the ties report a
+   generated Dependencies list that lacks it): FlowOpModel.run executes any order of jobs,
+   valid or not; the order task-before-predicate is exactly what the scheduler may produce when
+   the edge is missing. In it a panic of the predicate is reported to nobody - the directive
+   returns no failure - whereas the order the edge enforces reports it. *)
+Theorem C04_lost_predicate_edge_refuted :
+  let f := {| gparams := [0]; gresults := [1];
+              gtasks := [ {| kins := [0]; kouts := [1]; kpred := Some [0]; kinvoke := false; kfallback := false; khaserr := false |} ] |} in
+  let sc := {| sc_task := fun _ => OOK; sc_pred := fun _ => PPANIC |} in
+  valid f sc [FP 0; FT 0] = true /\ xfail (run f sc [FP 0; FT 0]) = [FPredPanic 0] /\
+  valid f sc [FT 0; FP 0] = false /\ xfail (run f sc [FT 0; FP 0]) = [].
+Proof. vm_compute. repeat split. Qed.
+Print Assumptions C04_lost_predicate_edge_refuted.
